@@ -1481,6 +1481,7 @@ func runC13(c *Ctx, r *Report) {
 	c13R3(c, r, "C13.R3")
 	c13R4(c, r, "C13.R4")
 	c13R6(c, r, "C13.R6")
+	c05R23(c, r, "C13.R8") // the hand-off is a fallback: it must run with the matching deadline cleared, or the consumer's reads time out
 	// R7
 	r.rule("C13.R7", "bounded abstract interpretation of the compiled route handler (0..3 routes): after a terminal route nothing runs - in particular the hand-off fallback is not called - and the fallback is called at most once", 4)
 	for n := 0; n <= 3; n++ {
